@@ -12,7 +12,8 @@
                                              nextLine's RT default; tokens are ($0, RT)
      find                                    Go's regexp FindIndex for RS (leftmost-longest): oracle *)
 From Verif Require Import Lib.Base Lib.Regex Model.Scanner Model.Splitters
-  Proofs.Scanner Proofs.Splitters Proofs.SplittersBlank Proofs.SplittersTop.
+  Proofs.Scanner Proofs.Splitters Proofs.SplittersBlank Proofs.SplittersTop
+  Proofs.SplittersLit Proofs.SplittersPara.
 
 (* ------------------------------------------------------------------ chunk independence *)
 
@@ -50,6 +51,13 @@ Theorem C07_stable_regex_partial : forall (find : bytes -> option (Z * Z)) (rs :
   match_final find -> stable unit record (to_split rs (regex_scan find)).
 Proof. exact regex_stable. Qed.
 Print Assumptions C07_stable_regex_partial.
+
+(* an RS that is a literal byte string of two or more bytes (a single multi-byte character is
+   compiled as QuoteMeta(RS)), searched as bytes, satisfies match_final: stable *)
+Theorem C07_stable_literal_re : forall (pat rs : bytes),
+  stable unit record (to_split rs (regex_scan (find_lit pat))).
+Proof. exact lit_stable. Qed.
+Print Assumptions C07_stable_literal_re.
 
 (* goawk, RS <> "": the sequence of ($0, RT) - hence NR - does not depend on the delivery.
    For a regex RS this needs match_final (guard excluding F-C07-1). *)
@@ -108,6 +116,51 @@ Theorem C07_lines_spec : forall data : bytes,
   lines_records data = map (strip_last 13) (byte_records 10 data).
 Proof. exact lines_spec. Qed.
 Print Assumptions C07_lines_spec.
+
+(* RS = "", input without CR: the records are the blank-line separated paragraphs (maximal
+   runs of non-empty lines joined by "\n"); with C07_blank_chunk_partial: under every delivery *)
+Theorem C07_paragraph_spec : forall (find : bytes -> option (Z * Z)) (data : bytes),
+  ~ In 13 data ->
+  map fst (fst (reference unit record (goawk_split [] find) tt data)) = paragraphs data.
+Proof. exact paragraph_spec. Qed.
+Print Assumptions C07_paragraph_spec.
+
+Example C07_ex_paragraphs :           (* "\na\nb\n\n\nc\n" -> "a\nb", "c" *)
+  paragraphs [10; 97; 10; 98; 10; 10; 10; 99; 10] = [[97; 10; 98]; [99]].
+Proof. vm_compute. reflexivity. Qed.
+
+(* RS = "": leading newlines, then each record followed by its RT, reproduce the input *)
+Definition C07_blank_RT_statement : Prop :=
+  forall data : bytes, ~ In 13 data ->
+  ztake (skip_nl data) data ++
+  concat (map (fun t => fst t ++ snd t)
+            (fst (reference unit record (goawk_split [] (find RNone)) tt data))) = data.
+
+(* F-C07-3: input "\nabc\n": record abc gets RT "c\n" (data[len(token):] ignores the skipped "\n") *)
+Theorem C07_blank_RT_offset_refuted : ~ C07_blank_RT_statement.
+Proof.
+  intros H. specialize (H [10; 97; 98; 99; 10]).
+  assert (N : ~ In 13 [10; 97; 98; 99; 10]) by (cbn; intuition discriminate).
+  specialize (H N). vm_compute in H. discriminate H.
+Qed.
+Print Assumptions C07_blank_RT_offset_refuted.
+
+Example C07_blank_RT_offset_witness :
+  fst (reference unit record (goawk_split [] (find RNone)) tt [10; 97; 98; 99; 10])
+  = [([97; 98; 99], [99; 10])].
+Proof. vm_compute. reflexivity. Qed.
+
+(* ... it holds when the input does not start with a newline (guard excluding F-C07-3) *)
+Theorem C07_blank_RT_partial : forall (find : bytes -> option (Z * Z)) (data : bytes),
+  ~ In 13 data -> skip_nl data = 0 ->
+  concat (map (fun t => fst t ++ snd t)
+            (fst (reference unit record (goawk_split [] find) tt data))) = data.
+Proof. exact blank_reconstruct_partial. Qed.
+Print Assumptions C07_blank_RT_partial.
+
+Example C07_ex_blank_RT_partial_hyp :
+  ~ In 13 [97; 10; 98; 10; 10; 10; 99; 10] /\ skip_nl [97; 10; 98; 10; 10; 10; 99; 10] = 0.
+Proof. split; [cbn; intuition discriminate|reflexivity]. Qed.
 
 (* ------------------------------------------------------------------ the full statement and where the pinned tree violates it *)
 
